@@ -33,7 +33,10 @@ ALSO = {"C15_m1": ["C05", "C01"], "C01_m2": ["C08", "C06"], "C02_m2": ["C01", "C
         "C15_m10": ["C05", "C01"], "C16_m10": ["C06"], "C18_m10": ["C19"], "C19_m10": ["C17"], "C20_m10": ["C06"], "C17_m10": ["C12", "C03"],
         "C01_m11": ["C03", "C12"], "C02_m11": ["C08", "C01"], "C03_m11": ["C12"], "C04_m11": ["C01", "C08"], "C05_m11": ["C01"], "C06_m11": ["C09", "C01"],
         "C07_m11": ["C14"], "C08_m11": ["C01", "C04"], "C09_m11": ["C06", "C11"], "C10_m11": ["C02"], "C11_m11": ["C06", "C20"], "C12_m11": ["C17"],
-        "C13_m11": ["C12"], "C14_m11": ["C04"], "C15_m11": ["C11"], "C16_m11": ["C06", "C04"], "C17_m11": ["C12"], "C18_m11": ["C05", "C01"], "C19_m11": ["C03"], "C20_m11": ["C11"]}
+        "C13_m11": ["C12"], "C14_m11": ["C04"], "C15_m11": ["C11"], "C16_m11": ["C06", "C04"], "C17_m11": ["C12"], "C18_m11": ["C05", "C01"], "C19_m11": ["C03"], "C20_m11": ["C11"],
+        "C01_m12": ["C18", "C03"], "C02_m12": ["C01"], "C03_m12": ["C18"], "C04_m12": ["C11", "C01"], "C05_m12": ["C01"], "C06_m12": ["C15", "C01"],
+        "C07_m12": ["C09", "C01"], "C08_m12": ["C09"], "C09_m12": ["C11"], "C10_m12": ["C06"], "C11_m12": ["C20"], "C12_m12": ["C17", "C03"],
+        "C13_m12": ["C12", "C14"], "C14_m12": ["C04"], "C15_m12": ["C06"], "C16_m12": ["C06", "C08"], "C17_m12": ["C14"], "C18_m12": ["C19"], "C19_m12": ["C16"], "C20_m12": ["C11", "C04"]}
 
 
 def needs_of(notes: str) -> str:
